@@ -329,7 +329,33 @@ class SourceCoverage:
                 out.append([x, x])
         return [f"{a}" if a == b else f"{a}-{b}" for a, b in out]
 
+    def _base_commit(self):
+        rc, out, _ = run(["git", "-C", REPO, "rev-list", "--max-parents=0", "HEAD"])
+        return out.split()[0] if rc == 0 and out.split() else None
+
+    def _functions(self, text):
+        """{qualified name: (first line, last line)} of every function / method in a source text"""
+        import ast
+        out = {}
+        def walk(node, prefix):
+            for ch in ast.iter_child_nodes(node):
+                if isinstance(ch, (ast.FunctionDef, ast.AsyncFunctionDef)):
+                    out[prefix + ch.name] = (ch.lineno, ch.end_lineno)
+                    walk(ch, prefix + ch.name + ".")
+                elif isinstance(ch, ast.ClassDef):
+                    walk(ch, prefix + ch.name + ".")
+                else:
+                    walk(ch, prefix)
+        try:
+            walk(ast.parse(text), "")
+        except SyntaxError:
+            pass
+        return out
+
     def report(self):
+        """the anchors name line ranges of the pinned snapshot (the repository's root commit); they are mapped to the functions that
+        overlap them there, and those functions are then looked up by name in the current source — so repairs that shift lines do not
+        blur the picture.  Lines that cannot be mapped (module level) are taken as they are."""
         if self.cov is None:
             return {"measured": False}
         anchors = {}
@@ -338,7 +364,8 @@ class SourceCoverage:
             if o.get("id") == self.pid:
                 anchors = o.get("anchors") or {}
         rep = {"measured": True, "files": {}, "mechanisms": []}
-        per_file = {}
+        per_file, cur_funcs, base_funcs = {}, {}, {}
+        base = self._base_commit()
         for rel in anchors.get("files", []):
             path = os.path.join(REPO, rel)
             try:
@@ -348,17 +375,37 @@ class SourceCoverage:
                 continue
             per_file[rel] = (set(stmts), set(missing))
             rep["files"][rel] = {"statements": len(stmts), "executed": len(stmts) - len(missing)}
+            try:
+                cur_funcs[rel] = self._functions(open(path).read())
+                rc, out, _ = run(["git", "-C", REPO, "show", f"{base}:{rel}"]) if base else (1, "", "")
+                base_funcs[rel] = self._functions(out) if rc == 0 else {}
+            except Exception:  # noqa
+                cur_funcs[rel], base_funcs[rel] = {}, {}
         for m in anchors.get("mechanism", []):
-            w = m.get("where", "")
-            mm = re.match(r"^(.*?):(\d+)(?:-(\d+))?$", w)
-            if not mm or mm.group(1) not in per_file:
-                continue
-            lo = int(mm.group(2)); hi = int(mm.group(3) or lo)
-            stmts, missing = per_file[mm.group(1)]
-            st = {x for x in stmts if lo <= x <= hi}
-            ms = {x for x in missing if lo <= x <= hi}
-            rep["mechanisms"].append({"name": m.get("name"), "where": w, "statements": len(st), "executed": len(st) - len(ms),
-                                      "never_executed": self._ranges(ms)})
+            for part in re.split(r";\s*", m.get("where", "")):
+                mm = re.match(r"^(.*?):([\d,\s\-]+)$", part.strip())
+                if not mm or mm.group(1) not in per_file:
+                    continue
+                rel = mm.group(1)
+                stmts, missing = per_file[rel]
+                lines, names = set(), []
+                for rng in mm.group(2).split(","):
+                    rng = rng.strip()
+                    if not rng:
+                        continue
+                    lo, _, hi = rng.partition("-")
+                    lo = int(lo); hi = int(hi or lo)
+                    hit = [n for n, (a, b) in base_funcs.get(rel, {}).items() if a <= hi and b >= lo and n in cur_funcs.get(rel, {})]
+                    if hit:
+                        for n in hit:
+                            a, b = cur_funcs[rel][n]
+                            lines |= set(range(a, b + 1)); names.append(n)
+                    else:
+                        lines |= set(range(lo, hi + 1))
+                st = stmts & lines
+                ms = missing & lines
+                rep["mechanisms"].append({"name": m.get("name"), "where": part.strip(), "functions": sorted(set(names)), "statements": len(st),
+                                          "executed": len(st) - len(ms), "never_executed": self._ranges(ms)})
         return rep
 
 
